@@ -100,16 +100,18 @@ class AbstractConstraint(object):
         return self._valueMap
 
     def isSuperTypeOf(self, otherConstraint):
-        # TODO: fix possible comparison of set vs scalars here
+        # `==` alone ignores the constraint class, the hash does not
         return (otherConstraint is self or
                 not self._values or
-                otherConstraint == self or
+                (hash(otherConstraint) == hash(self) and
+                 otherConstraint == self) or
                 self in otherConstraint.getValueMap())
 
     def isSubTypeOf(self, otherConstraint):
         return (otherConstraint is self or
                 not self or
-                otherConstraint == self or
+                (hash(otherConstraint) == hash(self) and
+                 otherConstraint == self) or
                 otherConstraint in self._valueMap)
 
 
